@@ -1165,6 +1165,9 @@ impl<T: TraceStorage> ChainProcess<T> {
                 let mut msg = stop_marker_rx.try_recv();
                 let mut draw = 0;
                 loop {
+                    if draw >= draws {
+                        break;
+                    }
                     match msg {
                         // The remote end is dead
                         Err(TryRecvError::Disconnected) => {
